@@ -34,7 +34,7 @@ type Op struct {
 
 func (o Op) String() string {
 	switch o.Kind {
-	case "write", "read", "ack", "event":
+	case "write", "read", "ack", "event", "readgap":
 		return fmt.Sprintf("%s(%d)", o.Kind, o.N)
 	}
 	return o.Kind
@@ -375,6 +375,19 @@ func (e *Engine) apply(op Op) string {
 		e.InEvent = true
 		e.EventLeft = want
 		return ""
+
+	case "readgap":
+		// partial read that stops op.N (1..5) bytes before the end of the reader's current page
+		if !e.InTx || !e.InEvent {
+			return "skipped"
+		}
+		_, _, _, off, _ := pq.VerifReaderState(e.R)
+		k := int(e.Cfg.PageSize) - off - op.N
+		if k <= 0 || k >= len(e.EventLeft) {
+			return "skipped"
+		}
+		e.Stats["readgap-hit"]++
+		return e.apply(Op{Kind: "read", N: k})
 
 	case "read":
 		if !e.InTx {
